@@ -1,5 +1,6 @@
 SPEC = {
     "id": "C43",
+    "abort_is_violation": True,  # the property is totality: a process abort / hang of the real code on a case is a violation
     "level": "proof",
     "lean_modules": ["PallasVerif.Props.C43"],
     "required_theorems": ["blocks_within_file", "secondary_never_seeks_back", "fixed_refines_unfixed_chunk",
